@@ -349,6 +349,10 @@ class VersionAdvance(Oracle):
         self.checks = 0
         self.head = None
         self.main = None
+        self.client = 0
+        self.incarnation = {}     # object id -> number of purges so far
+        self.base = {}            # (client, object id) -> incarnation the client's staged version was created on
+        self.pre_staged = None
 
     def main_head(self, ctx, oid):
         r = ctx.live.ask("heads %s" % hx(oid))
@@ -358,6 +362,7 @@ class VersionAdvance(Oracle):
     def before(self, ctx, st):
         oid = oid_of(st)
         self.head = None
+        self.pre_main, self.pre_staged = self.main_head(ctx, oid) if (st.get("kind") == "mut" and oid) else (None, None)
         if st["op"] in ("commit", "upgrade") and oid:
             self.head = self.main_head(ctx, oid)
             self.main = snapshot(os.path.join(ctx.dir, "root"), exclude=("extensions/rocfl-staging",))
@@ -369,11 +374,41 @@ class VersionAdvance(Oracle):
                 if r.startswith("ok "):
                     self.earlier[k] = {p: v[0] for p, v in json.loads(r[3:])["state"].items()}
 
+    def track(self, ctx, st, resp):
+        """which incarnation of the object (purges so far) each client's staged version was created on"""
+        oid = oid_of(st)
+        stale = False
+        if st["op"] == "client":
+            self.client = int(st["h"].split(" ")[1])
+            return False
+        if st["op"] in ("reset", "init"):
+            self.client, self.incarnation, self.base = 0, {}, {}
+            return False
+        if st.get("kind") != "mut" or not oid:
+            return False
+        key = (self.client, oid)
+        inc = self.incarnation.get(oid, 0)
+        if st["op"] in ("commit", "upgrade") and ok(resp):
+            stale = self.base.get(key) is not None and self.base[key] != inc
+        if st["op"] == "purge" and ok(resp) and self.pre_main != "-":
+            # a committed object was removed: whatever is staged on it elsewhere has lost its base
+            self.incarnation[oid] = inc + 1
+        post = self.main_head(ctx, oid)[1]
+        if post == "-":
+            self.base.pop(key, None)
+        elif self.pre_staged == "-":
+            # a version staged on a committed object depends on that object; a staged new object depends on nothing
+            self.base[key] = self.incarnation.get(oid, 0) if self.pre_main != "-" else None
+        return stale
+
     def after(self, ctx, st, resp):
+        stale = self.track(ctx, st, resp)
         if self.head is None:
             return []
         oid = oid_of(st)
         self.checks += 1
+        if stale:
+            return ["`%s` succeeded although the version had been staged on an object that was purged (and created again) in the meantime" % st["op"]]
         before_main, before_staged = self.head
         after_main, after_staged = self.main_head(ctx, oid)
         fails = []
